@@ -10,6 +10,10 @@ import Martian.Refactor
 import Proofs.RefactorRename
 import Proofs.RefactorRemove
 import Proofs.RefactorRemoveOutput
+import Proofs.RefactorGraphIn
+import Proofs.RefactorGraphCall
+import Proofs.RefactorGraphOut
+import Proofs.RefactorGraphRem
 
 namespace Props.C19
 open Martian.Refactor
@@ -169,5 +173,168 @@ theorem fixpoint_needs_invariant :
     (removeStep P0 false ["T"] P).2 = true ∧ (removeStep P0 false ["T"] P).1 = P := by decide
 
 example : (removeStep exProg true ["P"] exProg).2 = false := by decide
+
+/-! ### the resolved call graph with deep inlining (Martian/RefactorGraph.lean)
+
+`deepGraph ti p` is the model of `Ast.MakeCallGraph` (tied to it on every run by
+the `C19.graph` correspondence): one node per call reachable from the top-level
+call, with its inputs resolved through the enclosing pipelines' bindings and
+the sub-pipelines' return bindings down to stage outputs and literals, narrowed
+to the declared parameter types (`ti`: struct member lists, typed signatures). -/
+
+/-- the types of the example program: `S(in int a, out int o)`, `T` alike, `P(in int a, out int r)` -/
+def exTi : TypeInfo :=
+  ⟨[], [("S", [("a", ⟨"int", 0, 0⟩)]), ("T", [("a", ⟨"int", 0, 0⟩)]), ("P", [("a", ⟨"int", 0, 0⟩)])],
+       [("S", [("o", ⟨"int", 0, 0⟩)]), ("T", [("o", ⟨"int", 0, 0⟩)]), ("P", [("r", ⟨"int", 0, 0⟩)])]⟩
+
+/-- **rename_rename_id_typed.**  The round trip `x → y → x` on the program
+together with its type table (struct definitions and the typed signatures of all
+callables): both come back syntactically, for every `y` that is fresh for `x`
+and names no signature.  (Uses of a callable's name as a parameter TYPE are not
+rewritten by the edit — known finding KF2 — and are therefore untouched in both
+directions.) -/
+theorem rename_rename_id_typed (p : Program) (ti : TypeInfo) (x y : String)
+    (hwf : WF p = true) (hfresh : FreshFor x y p = true)
+    (hi : y ∉ ti.ins.map (·.1)) (ho : y ∉ ti.outs.map (·.1)) :
+    renameCallable y x (renameCallable x y p) = p
+    ∧ (ti.renameCallable x y).renameCallable y x = ti :=
+  ⟨Proofs.Refactor.rename_rename_id p x y hwf hfresh,
+   Proofs.RefactorGraph.typeInfo_rename_roundtrip x y ti hi ho⟩
+
+example : "Z" ∉ exTi.ins.map (·.1) ∧ "Z" ∉ exTi.outs.map (·.1)
+    ∧ exTi.renameCallable "S" "Z" ≠ exTi := by decide
+
+/-- **rename_input_graph.**  Renaming input `a` of callable `x` to a fresh name
+`b` leaves the resolved call graph unchanged except that every node of a call
+of `x` carries its resolved input under the key `b` instead of `a`: the same
+nodes (fqids, callables), the same resolved expressions for every input of
+every call at every depth, the same resolved outputs and retained references.
+`RenInOK` (decidable) is the freshness / well-formedness hypothesis: `b` is not
+an input of `x`, is not referred to as `self.b` inside `x` and is bound by no
+call of `x`; no wildcard bindings (known finding KF1); call ids are distinct. -/
+theorem rename_input_graph (x a b : String) (ti : TypeInfo) (p : Program)
+    (hok : RenInOK x a b ti p = true) :
+    deepGraph (ti.renameInput x a b) (renameInput x a b p)
+      = (deepGraph ti p).map (renNodeIn x a b) := by
+  exact Proofs.RefactorGraph.rename_input_graph x a b ti p hok
+
+/-- non-vacuity: the hypothesis holds for the example (stage input, and the
+pipeline input `P.a`, whose renaming rewrites `self.a` inside `P` and the
+top-level call), the graph has 4 nodes and the renaming changes it. -/
+example : RenInOK "S" "a" "z" exTi exProg = true ∧ RenInOK "P" "a" "z" exTi exProg = true
+    ∧ (deepGraph exTi exProg).length = 4
+    ∧ (deepGraph exTi exProg).map (renNodeIn "S" "a" "z") ≠ deepGraph exTi exProg := by decide
+
+/-- **rename_callable_graph** (the full form of `rename_callgraph_partial`: deep
+inlining included).  Modulo the choice of call ids (`eraseIds`: the k-th call of
+a pipeline is called `#k`, references point to positions — renaming a callable
+may turn `call X` into `call Y` or into `call Y as X`), renaming callable `x` to
+a fresh name `y` leaves the resolved call graph unchanged except for the
+callable's name: the same nodes with the same fqids, every resolved input,
+output and retained reference identical up to `x ↦ y` in the callable named by
+a stage-output reference.  `RenCallOK` (decidable): `y` names no callable, no
+call, no signature and no type; `x` is not used as a parameter type (known
+finding KF2); no wildcard bindings (KF1); distinct call ids. -/
+theorem rename_callable_graph (p : Program) (x y : String) (ti : TypeInfo)
+    (hwf : WF p = true) (hfresh : FreshFor x y p = true) (hx : (p.find? x).isSome = true)
+    (hok : RenCallOK x y ti (eraseIds p) = true) :
+    deepGraph (ti.renameCallable x y) (eraseIds (renameCallable x y p))
+      = (deepGraph ti (eraseIds p)).map (renNodeCallable x y) := by
+  rw [Proofs.Refactor.rename_callgraph p x y hwf hfresh hx]
+  exact Proofs.RefactorGraph.renameDec_graph x y ti (eraseIds p) hok
+
+/-- non-vacuity: a plain fresh name and the name `U` that collides with an
+existing call id (forced alias); the graph of the id-erased example has 4
+nodes and changes under the renaming. -/
+example : RenCallOK "S" "Z" exTi (eraseIds exProg) = true ∧ RenCallOK "S" "U" exTi (eraseIds exProg) = true
+    ∧ (deepGraph exTi (eraseIds exProg)).length = 4
+    ∧ (deepGraph exTi (eraseIds exProg)).map (renNodeCallable "S" "Z") ≠ deepGraph exTi (eraseIds exProg) := by
+  decide
+
+/-- **rename_output_graph.**  Renaming output `a` of callable `x` to a fresh name
+`b` leaves the resolved call graph unchanged modulo that name: the same nodes;
+in every resolved input, output and retained reference, a reference to output
+`a` (with any projection below it) of a STAGE node of `x` names `b` instead;
+a node of PIPELINE `x` lists its resolved output struct with the key `b` instead
+of `a`; nothing else changes — in particular every consumer of the output, at
+any depth of inlining, still receives the same stage output / literal.
+`RenOutOK` (decidable): `b` is not an output of `x` and is projected from no
+call of `x`; no call of `x` is bound as a whole (`= CALL`) and `x` is not used
+as a parameter type (known finding KF2); no wildcard bindings (KF1); call ids
+distinct; references name existing calls of existing callables. -/
+theorem rename_output_graph (x a b : String) (ti : TypeInfo) (p : Program)
+    (hok : RenOutOK x a b ti p = true) :
+    deepGraph (ti.renameOutput x a b) (renameOutput x a b p)
+      = (deepGraph ti p).map (renNodeOut x a b) := by
+  exact Proofs.RefactorGraph.rename_output_graph x a b ti p hok
+
+/-- non-vacuity: a stage output that is consumed twice and retained (`S.o`), and
+the pipeline output `P.r`; the renaming changes the graph. -/
+example : RenOutOK "S" "o" "z" exTi exProg = true ∧ RenOutOK "P" "r" "z" exTi exProg = true
+    ∧ (deepGraph exTi exProg).map (renNodeOut "S" "o" "z") ≠ deepGraph exTi exProg
+    ∧ (deepGraph exTi exProg).map (renNodeOut "P" "r" "z") ≠ deepGraph exTi exProg := by decide
+
+/-- Negative witness for the whole-call condition (known finding KF2): `T` reads
+the call `S` as a struct (`pt = S`) and a sub-pipeline projects `.o` from it; the
+edit does not rewrite that projection, so after `S.o → z` the consumer's input
+no longer resolves to the stage output. -/
+theorem rename_output_whole_call_breaks :
+    let S : Callable := ⟨false, "S", false, [], [("o", false)], [], [], [], []⟩
+    let T : Callable := ⟨false, "T", false, ["v"], [("w", false)], [], [], [], []⟩
+    let Q : Callable := ⟨true, "Q", false, ["s"], [("r", false)], [],
+      [⟨"T", "T", "", [⟨"v", .ref ⟨.self, "s", ["o"]⟩⟩], []⟩], [⟨"r", .ref ⟨.call, "T", ["w"]⟩⟩], []⟩
+    let P : Callable := ⟨true, "P", false, [], [("r", false)], [],
+      [⟨"S", "S", "", [], []⟩, ⟨"Q", "Q", "", [⟨"s", .ref ⟨.call, "S", []⟩⟩], []⟩],
+      [⟨"r", .ref ⟨.call, "Q", ["r"]⟩⟩], []⟩
+    let prog : Program := ⟨[S, T, Q, P], some ⟨"P", "P", "", [], []⟩⟩
+    RenOutOK "S" "o" "z" TypeInfo.empty prog = false
+    ∧ deepGraph (TypeInfo.empty.renameOutput "S" "o" "z") (renameOutput "S" "o" "z" prog)
+        ≠ (deepGraph TypeInfo.empty prog).map (renNodeOut "S" "o" "z") := by decide
+
+/-- **remove_input_graph** (the deep form of `remove_input_only`).  Removing input
+`q` of callable `x` (the parameter and the bindings named `q` of the calls of
+`x`) when nothing inside `x` refers to `self.q` leaves the resolved call graph
+unchanged except that the nodes of calls of `x` lose the key `q`: every
+remaining input of every call, at every depth of inlining, resolves to the same
+stage output / literal; outputs and retained references are unchanged. -/
+theorem remove_input_graph (x q : String) (ti : TypeInfo) (p : Program)
+    (hok : RemInOK x q p = true) :
+    deepGraph (ti.removeInput x q) (removeInputOne x q p) = (deepGraph ti p).map (remNodeIn x q) := by
+  exact Proofs.RefactorGraph.remove_input_graph x q ti p hok
+
+/-- **remove_input_closure_graph (partial).**  The whole edit `removeInput x q`
+(the parameter plus the cascade of pipeline inputs that nothing binds any more,
+as computed by `removeInputClosure`; the same closure is what the remove-unused
+loop applies after deleting calls / outputs): the nodes lose exactly the removed
+keys, every remaining resolved input is unchanged.
+PARTIAL: the side condition `RemInsOK` — each removed pipeline input is
+unreferenced inside its pipeline at the moment it is removed — is a decidable
+hypothesis (evaluated by the harness on every real instance), not derived from
+the closure's own analysis `leftoverInputs` (which decides it on the unedited
+program, one parameter at a time; known finding KF5 documents where that
+analysis is imprecise).  The deep-graph statements for deleting an unused call
+and for removing an unreferenced output (the other two steps of the
+remove-unused fixed point) are not proved; their one-level forms are
+`remove_unused_preserves_partial` and `remove_output_unused`, and the real call
+graph before/after is compared by the harness on every such edit. -/
+theorem remove_input_closure_graph_partial (x q : String) (ti : TypeInfo) (p : Program)
+    (hx : (p.find? x).isSome = true)
+    (hok : RemInsOK (removeInputClosure p (closureFuel p) [(x, q)] []) p = true) :
+    deepGraph (ti.removeInputs (removeInputClosure p (closureFuel p) [(x, q)] [])) (removeInput x q p)
+      = (removeInputClosure p (closureFuel p) [(x, q)] []).foldl
+          (fun g xq => g.map (remNodeIn xq.1 xq.2)) (deepGraph ti p) := by
+  have : removeInput x q p = removeInputs (removeInputClosure p (closureFuel p) [(x, q)] []) p := by
+    unfold removeInput
+    cases h : p.find? x with
+    | none => simp [h] at hx
+    | some _ => rfl
+  rw [this]
+  exact Proofs.RefactorGraph.remove_inputs_graph _ ti p hok
+
+/-- non-vacuity: removing `S.a` cascades to the pipeline input `P.a` (and the
+top-level binding); both steps satisfy the side condition; the graph changes. -/
+example : removeInputClosure exProg (closureFuel exProg) [("S", "a")] [] = [("S", "a"), ("P", "a")]
+    ∧ RemInsOK [("S", "a"), ("P", "a")] exProg = true
+    ∧ (deepGraph exTi exProg).map (remNodeIn "S" "a") ≠ deepGraph exTi exProg := by decide
 
 end Props.C19
